@@ -1,4 +1,4 @@
-HOOK_COMMITS = []
+HOOK_COMMITS = ["d639aa3"]
 NOT_APPLICABLE = {f"C{i:02d}": "check under construction (framework being built breadth-first, see DESIGN.md §13); not yet claimed" for i in range(1, 21)}
 TEXT = {
     "C10": {
